@@ -111,7 +111,7 @@ def generate(forest, path_s):
                 attrs.append((at["name"], "indirect", None))
             elif f == "implicit_const":
                 attrs.append((at["name"], "implicit_const", at["value"]))
-            elif f == "loclist":
+            elif f in ("loclist", "rangelist"):
                 attrs.append((at["name"], "sec_offset" if version >= 4 else "data4", None))
             else:
                 attrs.append((at["name"], f, None))
@@ -129,6 +129,7 @@ def generate(forest, path_s):
         return code
 
     loc_entries = []
+    range_entries = []
 
     def emit_die(d, u, ui, cu_label):
         tab = tables[u.get("table", id(u))]
@@ -181,6 +182,9 @@ def generate(forest, path_s):
             elif f == "loclist":
                 a.emit(".long .Lloc_%s - .Ldebug_loc0" % uniq)
                 loc_entries.append((uniq, v, cu_label))
+            elif f == "rangelist":
+                a.emit(".long .Lrng_%s - .Ldebug_ranges0" % uniq)
+                range_entries.append((uniq, v))
             else:
                 raise ValueError("form " + f)
         hc = d.get("has_children", bool(d["children"]))
@@ -238,6 +242,14 @@ def generate(forest, path_s):
                 a.label(".Lle_%s_%d_s" % (uniq, ri))
                 _expr(a, ops, cu_label, ".Ldebug_info0", "%s_r%d" % (uniq, ri))
                 a.label(".Lle_%s_%d_e" % (uniq, ri))
+            a.emit(".quad 0"); a.emit(".quad 0")
+    if range_entries:
+        a.emit('.section .debug_ranges,"",@progbits')
+        a.label(".Ldebug_ranges0")
+        for uniq, ranges in range_entries:
+            a.label(".Lrng_%s" % uniq)
+            for lo, hi in ranges:
+                a.emit(".quad %d" % lo); a.emit(".quad %d" % hi)
             a.emit(".quad 0"); a.emit(".quad 0")
     if forest.get("_strs"):
         a.emit('.section .debug_str,"MS",@progbits,1')
